@@ -118,6 +118,7 @@ pub fn run(args: &Args) {
                 for (s, o) in built.history.steps.iter().zip(st.outcomes.iter()) {
                     labels.push(format!("compile:{}:{o}", crate::history::mode_name(s.mode)));
                 }
+                labels.extend(built.agreement_labels(&st.outcomes));
                 let from_non_empty = !matches!(built.history.init, crate::history::Init::Missing | crate::history::Init::Empty);
                 let nontrivial = st.ok > 0 && (st.ok_root_only > 0 || st.ok_removed_something > 0 || from_non_empty);
                 let l: Vec<&str> = labels.iter().map(|s| s.as_str()).collect();
